@@ -46,6 +46,7 @@ type Violation struct {
 	ShrinkTry int      `json:"shrink_attempts"`
 	ShrinkOK  int      `json:"shrink_accepted"`
 	Log       []string `json:"event_log_tail,omitempty"`
+	Harness   string   `json:"harness,omitempty"` // set by the orchestrator: which arm of the check found it
 }
 
 // Replay is the replay-file format.
